@@ -102,6 +102,20 @@ Proof. cbn. repeat split; eexists; reflexivity. Qed.
 Example C02_ex_rok : rok fz nocustom (TOp (ss "or") false [TOp (ss "=") false [TVar (ss "x") 1; TConst (VInt 0)]; TVar (ss "b") 2; TConst (VBool false)]) = Some (VBool true).
 Proof. vm_compute. reflexivity. Qed.
 
+(* the third sentence in its literal reading ("every expression") fails outside the domain `wt`: a NON-boolean operand in
+   front of a deciding last operand - unoptimised evaluation never applies the operator (the last operand's value is the
+   result), a fast operator applies it to both leaves and reports the type error. Recorded in known_findings.json
+   (c02-nonboolean-operand-before-deciding-last-operand); the witness is replayed against the real code on every run. *)
+Definition fb (n : str) (k : Z) : res value := Ok (VBool true).
+Definition cfg_fast_only : config :=
+  {| enabled := [("constant_folding", false); ("reduce_nesting", false); ("reordering", false)]%string; stateless := []; registered := []; costs := []; events := false |}.
+Example C02_reordering_off_refuted_outside_domain :
+  let t := TOp (ss "or") false [TConst (VInt 3); TVar (ss "b") 1] in
+  pass_on cfg_fast_only "reordering" = false /\ nofast t /\
+  snd (sem fb nocustom t) = Ok (VBool true) /\
+  snd (sem fb nocustom (optimize nocustom cfg_fast_only t)) = Err (EType (ss "or")).
+Proof. vm_compute. repeat split; reflexivity. Qed.
+
 Print Assumptions C02_configurations_agree.
 Print Assumptions C02_compiled_agree.
 Print Assumptions C02_all_configurations_return_compiled.
